@@ -35,3 +35,7 @@ type Fault struct {
 
 // FaultPlan maps invocations to faults.
 type FaultPlan map[CallKey]Fault
+
+// TypedNil is a null object written the Go way: a typed nil pointer of the
+// strategy's object type (the reference treats it as null).
+type TypedNil struct{ Type string }
